@@ -7,6 +7,7 @@ package main
 
 import (
 	"sync"
+	"sync/atomic"
 
 	"github.com/attestantio/go-eth2-client/spec/phase0"
 	specqbft "github.com/bloxapp/ssv-spec/qbft"
@@ -53,6 +54,56 @@ func runRace(u *universe, out *hx.Out, prop string, seed uint64, n int) {
 			items[i], items[j] = items[j], items[i]
 		}
 		workers := 8
+		// Bursts: a validator that has never seen the message id receives the id's first consensus
+		// message from all workers at the same instant (the creation of the per-id lock is itself a
+		// read-check-update).  At most one copy may be accepted.
+		bursts := 24
+		burstAccepted := 0
+		for b := 0; b < bursts; b++ {
+			bsc := newScene(u, r)
+			bsc.slot = base.slot
+			bsc.signed, bsc.p2p = base.signed, base.p2p
+			var first *input
+			for _, d := range bsc.history() {
+				if d.cons != nil && len(d.cons.Signers) == 1 {
+					first = d.build()
+					break
+				}
+			}
+			if first == nil {
+				continue
+			}
+			bv := u.newValidator()
+			var ready atomic.Int32 // spin barrier: all workers enter the validator within the same instant
+			res := make([]outcome, workers)
+			var bw sync.WaitGroup
+			for w := 0; w < workers; w++ {
+				bw.Add(1)
+				go func(w int) {
+					defer bw.Done()
+					ready.Add(1)
+					for ready.Load() < int32(workers) {
+					}
+					res[w] = callValidator(bv, first)
+				}(w)
+			}
+			bw.Wait()
+			acc := 0
+			for _, o := range res {
+				out.Count("burst_" + o.class)
+				if o.class == "panic" {
+					s.report("C08", "panic under concurrent validation: %s", o.panic)
+				}
+				if o.class == "accept" {
+					acc++
+				}
+			}
+			if acc > 1 {
+				s.report("C09", "a validator that had not seen the message id accepted %d copies of its first consensus message validated concurrently (limit 1)", acc)
+			}
+			burstAccepted += acc
+		}
+		out.Note("bursts: %d, accepted %d", bursts, burstAccepted)
 		out.Op("CONC", "%d %d %d", len(items), workers, ids)
 		ch := make(chan *raceItem)
 		var wg sync.WaitGroup
